@@ -93,8 +93,9 @@ def run(ctx):
     ctx.suite("statesched", cases=len(exprs), disagreements=len(bad), monitor_failures=len(fails),
               locks=S.jsonable(locks), **cov)
     for k in ("suspended_edit_with_other_writer", "waiter_blocked_on_lock", "set_state_during_edit", "rmw_counter",
-              "interleaved_logs", "typed_cases", "three_or_more_tasks"):
+              "typed_cases", "three_or_more_tasks"):
         ctx.require_coverage("statesched", k, cov[k], 5)
+    ctx.require_coverage("statesched", "interleaved_logs", cov["interleaved_logs"], 2)
     if bad and not fails:
         i = bad[0]
         store, init, ops, sched, log = meta[i]
